@@ -233,6 +233,8 @@ def seq_elem(I, st, v, ip=None, label=False):
         return thaw(t[1])
     if t[0] == "zip":
         return VTup([seq_elem(I, st, VSeq(t[1])), seq_elem(I, st, VSeq(t[2]))])
+    if t[0] == "sel" and ip is None:
+        return rename_selected(st, seq_elem(I, st, VSeq(t[1]), None), t[2])
     if t[0] == "lfilter":
         # an element that passed the filter: the arbitrary element of the underlying list, renamed to the
         # sub-sequences selected by the mask, and satisfying the filter condition
@@ -412,6 +414,12 @@ def lift_map(I, st, T, r):
                 return mk_shift(d, base)
         if len(at) == 1 and at[0][0] == "enumidx" and r.p == Poly.atom(at[0]):
             return mk_arange(0, t_len(T))
+        if len(at) == 1 and at[0][0] == "get" and r.p == Poly.atom(at[0]) and not _mentions_ph(at[0][1]):
+            # X[i] for the running index i of the enumeration: X re-indexed along 0..len(T)
+            ix = as_poly(at[0][2])
+            ixat = _ph_atoms(ix)
+            if len(ixat) == 1 and ixat[0][0] == "enumidx" and ix == Poly.atom(ixat[0]):
+                return mk_gather(st, at[0][1], mk_arange(0, t_len(T)))
         if len(at) == 1 and at[0][0] == "len" and r.p == Poly.atom(at[0]):
             # the length of a per-element sequence: sizes of the flattening
             return ("lens", T, at[0][1])
@@ -421,8 +429,13 @@ def lift_map(I, st, T, r):
         if X[0] == "gather":
             return mk_gather(st, X[1], X[2])
         return X
-    if isinstance(r, VUser):
+    if isinstance(r, VUser) and not _mentions_ph(r.key):
         return ("fill", Poly.atom(("lbl", r.key)), t_len(T))
+    if isinstance(r, VRec) and r.ty == inv.LEDGE:
+        a_, b_ = r.f.get("sources"), r.f.get("targets")
+        if isinstance(a_, VSeq) and isinstance(b_, VSeq) and a_.t[0] == "el" and b_.t[0] == "el" and a_.t[1] == b_.t[1] \
+                and a_.t[2:] == ("sources",) and b_.t[2:] == ("targets",):
+            return a_.t[1]      # the arbitrary hyperedge of a list, unchanged: the list itself
     return ("lmap", T, freeze(r))
 
 
@@ -617,6 +630,8 @@ def h_from_elem(I, st, fr, e, c, a):
     v, n = a
     if isinstance(v, VNat) and isinstance(n, VNat):
         return [(st, VSeq(("fill", v.p, n.p)), None)]
+    if isinstance(n, VNat) and isinstance(v, VUser):
+        return [(st, VSeq(("fill", Poly.atom(("lbl", v.key)), n.p)), None)]
     if isinstance(n, VNat):
         return [(st, VSeq(("fill", Poly.atom(("val", repr(v)[:40])), n.p)), None)]
     return [(st, VTop("from_elem"), None)]
@@ -739,8 +754,24 @@ def rename_selected(st, v, M):
     if isinstance(v, VRec):
         return VRec(v.ty, {k: rename_selected(st, x, M) for k, x in v.f.items()})
     if isinstance(v, VSeq):
-        raise NotImplementedError("filter over a list of lists")
+        return VSeq(_rename_term(v.t, M))
     return v
+
+
+def _rename_term(t, M):
+    """Inside a term: the arbitrary element of X becomes the arbitrary element of sel(X, M)."""
+    if isinstance(t, tuple):
+        if len(t) >= 2 and t[0] in ("el", "elem") and isinstance(t[1], tuple) and not (t[1] and t[1][0] == "sel" and t[1][2] == M):
+            return (t[0], ("sel", t[1], M)) + tuple(t[2:])
+        return tuple(_rename_term(x, M) for x in t)
+    if isinstance(t, Poly):
+        mapping = {}
+        for at in t.atoms():
+            n = _rename_term(at, M)
+            if n != at:
+                mapping[at] = Poly.atom(n)
+        return t.subst(mapping) if mapping else t
+    return t
 
 
 def h_filter(I, st, fr, e, c, a):
@@ -772,6 +803,45 @@ def h_unzip(I, st, fr, e, c, a):
     if not isinstance(elem, VTup) or len(elem.items) != 2:
         raise NotImplementedError("unzip over non-pairs")
     return [(st, VTup([VSeq(lift_map(I, st, seq.t, x)) for x in elem.items]), None)]
+
+
+def h_repeat_n(I, st, fr, e, c, a):
+    v, n = deref(I, st, a[0]), deref(I, st, a[1])
+    if isinstance(n, VNat) and isinstance(v, VNat):
+        return [(st, VSeq(("fill", v.p, n.p)), None)]
+    if isinstance(n, VNat) and isinstance(v, VUser):
+        return [(st, VSeq(("fill", Poly.atom(("lbl", v.key)), n.p)), None)]
+    return [(st, VTop("repeat_n"), None)]
+
+
+def h_iter_max(I, st, fr, e, c, a):
+    import prims
+    seq = as_list(I, st, fr, e, a[0])
+    if label_of(seq.t):
+        return [(st, VTop("max of labels"), None)]
+    return prims.p_max(I, st, fr, e, c, [seq])
+
+
+def h_sort_by_key(I, st, fr, e, c, a):
+    """list.sort_by_key(key): the list re-indexed along the (stable) sorting permutation of its keys."""
+    place, cur = place_of(I, st, a[0])
+    if cur.t == EMPTY:
+        return [(st, UNIT, None)]
+    s = st.copy()
+    elem = seq_elem(I, s, cur, None)
+    s2, r = apply_closure_once(I, s, fr, e, a[1], [elem])
+    K = lift_map(I, st, cur.t, r)
+    perm = ("argsort", K)
+    if cur.t[0] == "arange" and st.eq(cur.t[1], 0):
+        new = perm
+    else:
+        new = mk_gather(st, cur.t, perm)
+    I.write_place(st, place, VSeq(new))
+    return [(st, UNIT, None)]
+
+
+def h_clone_from_slice(I, st, fr, e, c, a):
+    raise NotImplementedError("clone_from_slice")
 
 
 def h_flat_map(I, st, fr, e, c, a):
@@ -919,6 +989,10 @@ TABLE = {
     "std::vec::from_elem": h_from_elem,
     "std::vec::Vec::<T, A>::push": h_push,
     "std::iter::Extend::extend": h_extend,
+    "std::vec::Vec::<T, A>::extend_from_slice": h_extend,
+    "std::iter::repeat_n": h_repeat_n,
+    "std::iter::Iterator::max": h_iter_max,
+    "std::slice::<impl [T]>::sort_by_key": h_sort_by_key,
     "std::vec::Vec::<T, A>::truncate": h_truncate,
     "std::vec::Vec::<T, A>::drain": h_drain,
     "std::mem::take": h_take,
@@ -993,7 +1067,10 @@ def summarise_for(I, st, fr, e, itv, pat, body, roots):
         if len(m) != 1:
             raise NotImplementedError("loop pattern")
         return I.ev(body, m[0], fr)
-    return append_loop(I, st, fr, e, seq, pat, body, roots, run_body)
+    r = append_loop(I, st, fr, e, seq, pat, body, roots, run_body)
+    if r is None:
+        r = fold_loop(I, st, fr, e, seq, pat, body, roots, run_body)
+    return r
 
 
 def _is_pattern_local(pat, r):
@@ -1198,3 +1275,267 @@ def lift_added(I, st, S, x, per_iter):
 def user_contract(I, callee, vals):
     import contracts_lax
     return contracts_lax.lookup(I, callee, vals)
+
+
+# ---------------------------------------------------------------------------------------------
+# fold idioms: exact summaries for loops that update an array in place at computed positions, accumulate a
+# running scalar, or push conditionally (one symbolic iteration from an opaque accumulator state)
+
+OLD = ("old-value",)     # stands for the element at the written position before the write
+
+
+def _subst_term_atoms(x, mapping):
+    """Replace atoms inside a polynomial / frozen value."""
+    if isinstance(x, Poly):
+        return x.subst(mapping)
+    return x
+
+
+def fold_loop(I, st, fr, e, seq, pat, body, roots, run_body):
+    import loops
+    entry = loops.resolve_roots(I, st, fr, roots, skip=lambda r: _is_pattern_local(pat, r), extra_values=[seq])
+    if not entry:
+        return None
+    head = st.copy()
+    names = loops.local_names(fr.fn) if fr.fn else {}
+    fr.loop_ix += 1
+    lname = (fr.fn["path"] if fr.fn else "?", "loop%d" % fr.loop_ix)
+    seq_mark, nat_mark = {}, {}
+    for r, (place, v) in entry.items():
+        nv = v
+        rn = str(names.get(r, r))
+        for path, leafv in seq_leaves(v):
+            P = leaf(("acc",) + lname + (rn,) + path)
+            seq_mark[(r, path)] = (P, leafv.t)
+            head.add_ge(t_len(P) - t_len(leafv.t))
+            if label_of(leafv.t):
+                LABEL_LEAVES.add(P)
+            nv = _set_path(nv, path, VSeq(P))
+        for path, natv in nat_leaves(v):
+            A = Poly.atom(("accn",) + lname + (rn,) + path)
+            nat_mark[(r, path)] = (A, natv.p)
+            nv = _set_path(nv, path, VNat(A))
+        I.write_place(head, place, nv)
+    n_ob = len(I.obligations)
+    saved = (dict(I.unmodelled), dict(I.lemma_uses), dict(I.assumptions), fr.loop_ix)
+
+    def abort():
+        del I.obligations[n_ob:]
+        I.unmodelled, I.lemma_uses, I.assumptions = saved[0], saved[1], saved[2]
+        fr.loop_ix = saved[3] - 1
+        return None
+    n_facts = len(head.lin.facts)
+    n_unk = len(head.unk)
+    try:
+        elem = seq_elem(I, head, seq, None)
+        n_facts = len(head.lin.facts)
+        outs = run_body(head.copy(), elem)
+    except (NotImplementedError, TypeError, KeyError, AttributeError):
+        return abort()
+    except Exception as ex:
+        if type(ex).__name__ == "Unsupported":
+            return abort()
+        raise
+    if not outs or any(c is not None for (_, _, c) in outs):
+        return abort()
+    all_marks = {P for (P, _) in seq_mark.values()}
+    nat_atoms = {next(iter(A.atoms())) for (A, _) in nat_mark.values()}
+
+    def classify(s2):
+        """per leaf: ('same',) | ('upd', ip, val) | ('app', [parts]) | ('inc', g)   (None = unsupported)"""
+        out = {}
+        for r, (place, v) in entry.items():
+            endv = I.read_place(s2, place)
+            for path, _ in seq_leaves(v):
+                P, t0 = seq_mark[(r, path)]
+                ev = loops.get_path(endv, path)
+                if not isinstance(ev, VSeq):
+                    return None
+                t = ev.t
+                if t == P:
+                    out[(r, path)] = ("same",)
+                elif t[0] == "upd" and t[1] == P and t[3] == ():
+                    out[(r, path)] = ("upd", as_poly(t[2]), t[4])
+                elif t[0] == "concat" and t[1] == P:
+                    out[(r, path)] = ("app", list(t[2:]))
+                else:
+                    return None
+            for path, _ in nat_leaves(v):
+                A, a0 = nat_mark[(r, path)]
+                ev = loops.get_path(endv, path)
+                if not isinstance(ev, VNat):
+                    return None
+                g = ev.p - A
+                if g == Poly.const(0):
+                    out[(r, path)] = ("same",)
+                elif not (g.atoms() & nat_atoms) and not mentions(g, all_marks):
+                    out[(r, path)] = ("inc", g)
+                else:
+                    return None
+        return out
+    cls = [classify(s2) for (s2, _, _) in outs]
+    if any(c is None for c in cls):
+        return abort()
+    changing = [i for i, c in enumerate(cls) if any(k[0] != "same" for k in c.values())]
+    S = seq.t
+    res = st.copy()
+
+    def finish(final):
+        for (r, path), newv in final.items():
+            place = entry[r][0]
+            cur = I.read_place(res, place)
+            I.write_place(res, place, _set_path(cur, path, newv))
+        return [(res, UNIT, None)]
+
+    # ---- (iii) conditional push: one pushing outcome, the others leave everything unchanged
+    if len(outs) >= 2 and len(changing) == 1:
+        i = changing[0]
+        c = cls[i]
+        if any(k[0] not in ("same", "app") for k in c.values()):
+            return abort()
+        s2 = outs[i][0]
+        cond_facts = tuple(sorted((repr((k, p)), k, p) for (k, p) in s2.lin.facts[n_facts:]))
+        cond_unk = tuple(s2.unk[n_unk:])
+        if not cond_facts and not cond_unk:
+            return abort()
+        cond = ("true",)
+        for (_, k, p) in cond_facts:
+            cond = f_and(cond, ("cmp", k, p))
+        for (key, truth) in cond_unk:
+            f = ("unk", key)
+            cond = f_and(cond, f if truth else f_not(f))
+        M = ("mask", S, cond)
+        Sf = ("lfilter", S, M)
+        term_facts(res, Sf)
+        final = {}
+        for (r, path), k in c.items():
+            if k[0] == "same":
+                continue
+            P, t0 = seq_mark[(r, path)]
+            lifted = []
+            for x in k[1]:
+                if mentions(x, all_marks) or mentions(x, nat_atoms):
+                    return abort()
+                try:
+                    y = _lift_selected(I, res, S, M, x)
+                except NotImplementedError:
+                    y = None
+                if y is None:
+                    return abort()
+                lifted.append(y)
+            final[(r, path)] = VSeq(mk_concat([t0] + lifted))
+        return finish(final)
+    if len(outs) != 1:
+        return abort()
+    c = cls[0]
+    s2 = outs[0][0]
+    kinds = {k[0] for k in c.values()}
+    # ---- (i) indexed in-place updates
+    if kinds <= {"same", "upd"} and "upd" in kinds:
+        final = {}
+        for (r, path), k in c.items():
+            if k[0] != "upd":
+                continue
+            P, t0 = seq_mark[(r, path)]
+            ip, fval = k[1], k[2]
+            if mentions(ip, all_marks) or (ip.atoms() & nat_atoms):
+                return abort()
+            old = ("get", P, ip)
+            if fval[0] == "nat":
+                val = fval[1].subst({old: Poly.atom(OLD)})
+                if mentions(val, all_marks):
+                    return abort()
+                fval = ("nat", val)
+            elif mentions(fval, all_marks):
+                return abort()
+            t = fold_update_term(I, res, S, t0, ip, fval)
+            if t is None:
+                return abort()
+            final[(r, path)] = VSeq(t)
+        return finish(final)
+    # ---- (ii) running scalar(s) with appends of the running value
+    if kinds <= {"same", "inc", "app"} and "inc" in kinds:
+        final = {}
+        incs = {}
+        for (r, path), k in c.items():
+            if k[0] == "inc":
+                A, a0 = nat_mark[(r, path)]
+                G = lift_map(I, res, S, VNat(k[1]))
+                incs[next(iter(A.atoms()))] = (a0, G, k[1])
+                final[(r, path)] = VNat(a0 + t_sum(G))
+        for (r, path), k in c.items():
+            if k[0] != "app":
+                continue
+            P, t0 = seq_mark[(r, path)]
+            lifted = []
+            for x in k[1]:
+                if mentions(x, all_marks):
+                    return abort()
+                y = None
+                if x[0] == "fill" and res.eq(x[2], 1):
+                    p = as_poly(x[1])
+                    used = p.atoms() & nat_atoms
+                    if len(used) == 1:
+                        a = next(iter(used))
+                        a0, G, g = incs.get(a, (None, None, None))
+                        rest = p - Poly.atom(a)
+                        if G is not None and not rest.atoms():
+                            # value of the accumulator BEFORE this iteration's increment (rest == 0) or after (rest == g)
+                            pre = ("slice", ("cumsum", G), Poly.const(0), t_len(G))
+                            y = mk_shift(a0 + rest, pre)
+                        elif G is not None and rest == g:
+                            y = mk_shift(a0, ("slice", ("cumsum", G), Poly.const(1), t_len(G) + 1))
+                    elif not used:
+                        y = lift_added(I, res, S, x, {})
+                if y is None:
+                    return abort()
+                lifted.append(y)
+            final[(r, path)] = VSeq(mk_concat([t0] + lifted))
+        return finish(final)
+    return abort()
+
+
+def _lift_selected(I, st, S, M, x):
+    """x: what one (selected) iteration appended, over the placeholders of S; the whole appended sequence over the
+    iterations selected by mask M."""
+    if x[0] == "single":
+        v = rename_selected(st, thaw(x[1]), M)
+        return lift_map(I, st, ("lfilter", S, M), v)
+    if x[0] == "fill" and st.eq(x[2], 1):
+        p = rename_selected(st, VNat(as_poly(x[1])), M).p
+        mapping = {}
+        for at in p.atoms():
+            if isinstance(at, tuple) and at and at[0] == "enumidx":
+                # position of a selected element = element of the selected sub-sequence of 0..len
+                mapping[at] = Poly.atom(("elem", ("sel", mk_arange(0, t_len(at[1])), M)))
+        p = p.subst(mapping) if mapping else p
+        return lift_map(I, st, ("lfilter", S, M), VNat(p))
+    return None
+
+
+def fold_update_term(I, st, S, t0, ip, fval):
+    """The array t0 after `t0[ip] = val` for every element of S in order (ip, val over the placeholders of S; val may
+    mention OLD, the element being overwritten).  Contract terms where the shape is one of the array primitives."""
+    K = lift_map(I, st, S, VNat(ip))
+    if fval[0] == "nat":
+        val = fval[1]
+        old = Poly.atom(OLD)
+        if not (val.atoms() & {OLD}):
+            V = lift_map(I, st, S, VNat(val))
+            if V[0] == "fill":
+                return ("sac", t0, K, as_poly(V[1]))
+            return ("sa", t0, K, V)
+        d = val - old
+        if not (d.atoms() & {OLD}):
+            if d == Poly.const(1) and t0[0] == "fill" and as_poly(t0[1]) == Poly.const(0):
+                return ("bincount", K, as_poly(t0[2]))
+            neg = Poly.const(0) - d
+            if neg.t and all(c > 0 for c in neg.t.values()):
+                return ("ssa", t0, K, lift_map(I, st, S, VNat(neg)))
+            return ("saa", t0, K, lift_map(I, st, S, VNat(d)))
+        return None
+    v = thaw(fval)
+    V = lift_map(I, st, S, v)
+    if V[0] == "fill":
+        return ("sac", t0, K, as_poly(V[1]))
+    return ("sa", t0, K, V)
